@@ -173,6 +173,12 @@ func runC01(w *World, r *Report) {
 	// ---- shared with the stream substrate / isolation properties: facts the run result depends on
 	r.Rule("C01.fan-in-terminates", "merged stream dispatch: the static select and the reflect select agree on the boundary (a fan-in of exactly maxSelectNum streams must not take the reflect path without a case table) — shared with C08", 1)
 	mergeDispatchCheck(w, r, "C01.fan-in-terminates")
+	r.Rule("C01.run-state-per-run", "nothing on the run path writes a field of the runner or of another compiled object (shared with C09.read-only-at-runtime): channels, their contents and the step bookkeeping belong to one run — a channel manager cached on the runner would hand one run's undelivered values to the next", 0)
+	{
+		roots := runRoots(w)
+		ruleReadOnlyAtRuntime(w, r, "C01.run-state-per-run", w.reachableFrom(roots...), compiledTypeSet(w), roots)
+	}
+
 	r.Rule("C01.successors-not-mutated", "the successor lists of the compiled graph (chanCall.writeTo …) are never the first operand of an append on the run path: a run's branch choice must not be written into storage other runs read", 1)
 	{
 		owners := map[*types.Named]bool{w.Named("compose", "chanCall"): true}
